@@ -41,7 +41,7 @@ import common
 
 import reactions  # noqa: E402
 
-PRIORITY = ["jpsi_ksp1750", "etac_ll", "lc_pkpi", "jpsi_ksp", "jpsi_ppbar", "jpsi_3pi", "jpsi_gpipi",
+PRIORITY = ["jpsi_ksp1750", "etac_ll", "eta2_rhorho", "jpsi_geta2_rhorho", "lc_pkpi", "jpsi_ksp", "jpsi_ppbar", "jpsi_3pi", "jpsi_gpipi",
             "d0_kkk", "jpsi_gpipi_f2"]
 HEL_FLAGS = [(False, True), (True, True), (False, False)]   # (insert_parent_helicities, insert_child_helicities)
 TOL_DIGITS = 40
@@ -158,7 +158,7 @@ def walk_vs_fresh(rname, walk):
 class Pair:
     """Both models of one reaction, everything that does not depend on the coefficient draw."""
 
-    def __init__(self, base: str, flags=(False, True), history=(), need_intensity=True):
+    def __init__(self, base: str, flags=(False, True), history=(), need_intensity=True, canonical=True):
         """history: naming-flag settings the SAME helicity builder goes through (formulate() after
         each) before it is set to `flags` and formulated for the last time."""
         import mpmath
@@ -171,7 +171,7 @@ class Pair:
         mpmath.mp.dps = TOL_DIGITS + 10
         have = set(reactions.names())
         rh = reactions.load(base + "_hel")
-        rc = reactions.load(base + "_can") if base + "_can" in have else None
+        rc = reactions.load(base + "_can") if canonical and base + "_can" in have else None
         self.rh = rh
         bh = ampform.get_builder(rh)
         self.steps = []   # (flags, hel chains, groups) of every model formulated on the way
@@ -193,7 +193,8 @@ class Pair:
                 name = "A_{" + bh.naming.generate_amplitude_name(t) + "}"
                 f, syms = strip(self.mh.components[name])
                 assert len(syms) == 1 and f.is_Rational and f != 0, (name, syms, f)
-                hel.append({"t": t, "name": name, "sym": syms[0], "f": Fraction(int(f.p), int(f.q)), "key": chain_key(t)})
+                hel.append({"t": t, "name": name, "sym": syms[0], "f": Fraction(int(f.p), int(f.q)), "key": chain_key(t),
+                            "hels": [[i, two(st.spin_projection)] for i, st in sorted(t.states.items())]})
             groups = {}
             for h in hel:
                 groups.setdefault(h["sym"], []).append(h)
@@ -274,10 +275,10 @@ class Pair:
                     continue
                 if h1["f"] != sign * h2["f"]:
                     fails.append({"signature": "direct:shared-coefficient sign",
-                                  "what": f"{self.base}{hist}: chains {h1['name']} and {h2['name']} share {sym} and differ by reversed daughter helicities; "
-                                          f"required relative sign {sign}, model has {h1['f']}/{h2['f']}",
+                                  "what": f"{self.base}{hist}: chains {h1['name']} and {h2['name']} (2*helicity per state id {h1['hels']} and {h2['hels']}) share {sym} "
+                                          f"and differ by reversed daughter helicities; required relative sign {sign}, model has {h1['f']}/{h2['f']}",
                                   "case": {"kind": "direct", "base": self.base, "flags": list(flags), "history": [list(x) for x in history],
-                                           "chains": [h1["name"], h2["name"]]}})
+                                           "chains": [h1["name"], h2["name"]], "hels": [h1["hels"], h2["hels"]]}})
         return n, skipped, fails
 
     def _hist(self):
@@ -410,11 +411,13 @@ def run(seed: int, n: int):
     thorough = n >= 200
     per = max(1, n // max(1, len(bases)))
     n_int = 10 if thorough else 2
-    cheap = {"etac_ll", "jpsi_ppbar", "jpsi_gpipi"}
+    cheap = {"etac_ll", "jpsi_ppbar", "jpsi_gpipi", "eta2_rhorho"}
+    heavy = {"jpsi_geta2_rhorho", "lc_pkpi"}   # lambdifying their intensities takes 13-30 s: thorough only
     combos = [(b, fl) for fl in HEL_FLAGS for b in bases]
     for b, fl in combos:
-        full = fl[1]  # child helicities in the names: the "equivalently" clause applies
-        pair = Pair(b, fl)
+        # child helicities in the names: the "equivalently" clause applies
+        full = fl[1] and (fl == HEL_FLAGS[0] or thorough or b in cheap)
+        pair = Pair(b, fl, canonical=full)
         nd, skipped, f = pair.direct()
         kinds["direct_pairs"] += nd
         kinds["direct_skipped_not_reversal"] += skipped
@@ -439,7 +442,7 @@ def run(seed: int, n: int):
             evaluations += nc
             distinct += 1
             failures += f
-            if not f and d < n_int:
+            if not f and d < n_int and (thorough or b not in heavy):
                 ni, f2 = pair.intensity(a, vals, rng, draw)
                 kinds["intensity_points"] += ni
                 evaluations += ni
@@ -467,7 +470,7 @@ def run(seed: int, n: int):
                 history = [(False, True), (True, True), (False, False)]   # sharing first, then flags that remove it
             else:
                 history = [hrng.choice(all_flags) for _ in range(hrng.randint(2, 4))]
-            pair = Pair(b, HEL_FLAGS[0], history=history)
+            pair = Pair(b, HEL_FLAGS[0], history=history, canonical=thorough or b in cheap or b == "jpsi_ksp1750")
             nd, skipped, f = pair.direct()
             f = f + pair.fresh_fails
             kinds["history_vs_fresh_models"] = kinds.get("history_vs_fresh_models", 0) + (len(pair.steps) if history else 0)
@@ -499,6 +502,8 @@ def run(seed: int, n: int):
     can_pool = [(a, b_, c) for a in (False, True) for b_ in (False, True) for c in (False, True)]
     for nm in can_names:
         walks = [[(False, False, True), (False, True, False), (True, True, False), (False, True, True), (False, False, True)]]
+        if not thorough and len(reactions.load(nm).transitions) > 80:   # quick: shorter walk for the big ones
+            walks = [[(False, True, False), (True, True, False), (False, False, True)]]
         if thorough:
             walks += [[hrng.choice(can_pool) for _ in range(hrng.randint(3, 5))] for _ in range(2)]
         for walk in walks:
@@ -534,7 +539,8 @@ def replay(path: str):
         pair = Pair(case["base"], tuple(case["flags"]), history=case.get("history", []))
         if kind == "direct":
             _, _, f = pair.direct()
-            still = any(set(x["case"]["chains"]) == set(case["chains"]) and x["case"]["flags"] == case["flags"] for x in f)
+            still = any(set(x["case"]["chains"]) == set(case["chains"]) and x["case"]["flags"] == case["flags"]
+                        and ("hels" not in case or x["case"]["hels"] == case["hels"]) for x in f)
         else:
             a, rng = draw_coefficients(pair, case["draw"])
             _, f, vals = pair.consistency(a, case["draw"])
